@@ -87,7 +87,7 @@ def _batch(args):
     total_mb = sum(os.path.getsize(f) for f in files) / 1e6
     try:
         p = subprocess.run([common.PY, RUNNER, str(MEM), mode, '20', '60'] + files, cwd=common.REPO, env=env,
-                           stdout=subprocess.PIPE, stderr=subprocess.PIPE, text=True, timeout=120 + 30 * len(files) + 90 * total_mb)
+                           stdout=subprocess.PIPE, stderr=subprocess.PIPE, text=True, timeout=8 * (120 + 30 * len(files) + 90 * total_mb))
         out = [json.loads(l) for l in p.stdout.split('\n') if l.strip().startswith('{')]
         died = None if len(out) == len(files) else 'worker died with exit code %s after %d of %d files: %s' % (p.returncode, len(out), len(files), p.stderr[-300:])
     except subprocess.TimeoutExpired as e:
@@ -209,7 +209,7 @@ def part_streams(chk, drv, n_sets):
 def run(chk, drv):
     quick = chk.tier == 'quick'
     chk.cov['rule'] = ('corruptions (kind x position x size; region header / ciphertext / decoded stream) of recordings and synthetic battles, each '
-                       'parse under RLIMIT_AS 3 GiB and a time limit of 20 s + 60 s/MB; corrupted streams of generated histories through model and '
+                       'parse under RLIMIT_AS 3 GiB and a CPU-time limit of 20 s + 60 s/MB (wall clock 8x); corrupted streams of generated histories through model and '
                        'implementation; NoZeroWidth on every bundled set. Non-trivial: all; distinct by (file, mode).')
     part_zero_width(chk)
     part_campaign(chk, 40 if quick else 1500, 5 if quick else 10)
